@@ -121,3 +121,31 @@ Theorem C14_obv_scale : forall c (bars : list (R * R)), 0 < c ->
   Osc.obv_outs XROps (obv_new XROps) (map (fun b : R * R => mkBar (Fin 0) (Fin 0) (Fin 0) (Fin (c * fst b)) (Fin (snd b))) bars) =
   Osc.obv_outs XROps (obv_new XROps) (map (fun b : R * R => mkBar (Fin 0) (Fin 0) (Fin 0) (Fin (fst b)) (Fin (snd b))) bars).
 Proof. exact obv_scale_new. Qed.
+
+(* ---- ChandelierExit and the bar paths of TrueRange / ATR (exact reals; bars as (high, low, close)) ---- *)
+From TA Require Import Proofs.XBands Proofs.XCe.
+Theorem C14_atr_bar_real : forall p a bars, atr_new XROps p = Ok a ->
+  atr_bar_outs XROps a (map mkb bars) = map Fin (ema_stream (kreal p) (trb_stream None bars)).
+Proof. exact atr_bar_exact. Qed.
+Theorem C14_atr_bar_scale : forall k c bars, 0 <= c ->
+  ema_stream k (trb_stream None (map (bscale c) bars)) = map (Rmult c) (ema_stream k (trb_stream None bars)).
+Proof. exact atr_bar_scale. Qed.
+Theorem C14_atr_bar_shift : forall k d bars,
+  ema_stream k (trb_stream None (map (bshift d) bars)) = ema_stream k (trb_stream None bars).
+Proof. exact atr_bar_shift. Qed.
+(* rescaling every price of every bar by c > 0 rescales both stops (also the non-finite ones stay what they are) ... *)
+Theorem C14_ce_scale : forall p mu s c bars, ce_new XROps p (Fin mu) = Ok s -> 0 < c ->
+  ce_outs XROps s (map mkb (map (bscale c) bars)) = map (map (xmap (Rmult c))) (ce_outs XROps s (map mkb bars)).
+Proof. exact ce_scale. Qed.
+(* ... and shifting every price by d shifts both stops by d, for every multiplier *)
+Theorem C14_ce_shift : forall p mu s d bars, ce_new XROps p (Fin mu) = Ok s ->
+  ce_outs XROps s (map mkb (map (bshift d) bars)) = map (map (xmap (Rplus d))) (ce_outs XROps s (map mkb bars)).
+Proof. exact ce_shift. Qed.
+(* KeltnerChannel fed bars: EMA of the typical price (close + high + low) / 3, bands at +- multiplier * ATR of the bars *)
+Theorem C14_kc_bar_real : forall p m s bars, kc_new XROps p (Fin m) = Ok s ->
+  kc_bar_outs XROps s (map mkb bars) = map (map Fin) (kc_bar_real (kreal p) m bars).
+Proof. exact kc_bar_exact. Qed.
+Theorem C14_kc_bar_scale : forall k m c bars, 0 <= c -> kc_bar_real k m (map (bscale c) bars) = map (map (Rmult c)) (kc_bar_real k m bars).
+Proof. exact kc_bar_scale. Qed.
+Theorem C14_kc_bar_shift : forall k m d bars, kc_bar_real k m (map (bshift d) bars) = map (map (Rplus d)) (kc_bar_real k m bars).
+Proof. exact kc_bar_shift. Qed.
